@@ -357,8 +357,18 @@ def accepted_means_enqueued(prog, an, rep):
                     isinstance(x.func, ast.Attribute) and
                     x.func.attr == 'put_job' for x in ast.walk(n.ast)):
                 puts += c.done_of(n)
-        no_job = an.branch_nodes(f, lambda e: src(e) == 'job', False) + \
-            an.branch_nodes(f, lambda e: src(e) == 'job is None', True)
+        # "no job was built": the value handed to put_job is None / falsy
+        jv = {src(x.args[0]) for n in c.nodes.values() if n.kind == 'stmt'
+              for x in ast.walk(n.ast)
+              if isinstance(x, ast.Call) and
+              isinstance(x.func, ast.Attribute) and
+              x.func.attr == 'put_job' and x.args}
+        no_job = an.branch_nodes(f, lambda e: src(e) in jv, False) + \
+            an.branch_nodes(f, lambda e: isinstance(e, ast.Compare) and
+                            len(e.ops) == 1 and
+                            isinstance(e.ops[0], ast.Is) and
+                            src(e.left) in jv and
+                            is_const(e.comparators[0], None), True)
         rets = [n for n in c.nodes.values() if n.kind == 'return']
         ok2xx = 0
         for r in rets:
@@ -380,7 +390,8 @@ def accepted_means_enqueued(prog, an, rep):
                     if isinstance(x, ast.Call) and \
                             isinstance(x.func, ast.Attribute) and \
                             x.func.attr == 'put_job':
-                        rep.check([src(a) for a in x.args] == ['job'], R,
+                        rep.check(len(x.args) == 1 and
+                                  isinstance(x.args[0], ast.Name), R,
                                   f.qname + ': put_job(job)', f.where(x),
                                   'put_job(%s)' % [src(a) for a in x.args])
 
